@@ -144,6 +144,10 @@ type ConverterGenerator struct {
 	generatedPaths map[string]struct{}
 
 	listOfDisjunctionOptions map[string][]ast.Option
+
+	// what the constructor of the builder being converted sets, besides the defaults of the
+	// types: path → constant (the `initialize` veneer)
+	initialisedPaths map[string]any
 }
 
 func NewConverterGenerator(nullableTypes NullableConfig) *ConverterGenerator {
@@ -166,6 +170,13 @@ func (generator *ConverterGenerator) FromBuilder(context Context, builder ast.Bu
 	}
 
 	converter.ConstructorArgs = generator.constructorArgs(context, converter, builder)
+
+	generator.initialisedPaths = make(map[string]any)
+	for _, assignment := range builder.Constructor.Assignments {
+		if assignment.Value.Constant != nil {
+			generator.initialisedPaths[assignment.Path.String()] = assignment.Value.Constant
+		}
+	}
 
 	// an option that writes several paths from one argument is called before the
 	// options that write one of these paths: they correct what it wrote there.
@@ -633,12 +644,17 @@ func (generator *ConverterGenerator) guardForAssignments(valuesRootPath ast.Path
 			guards.Set(guard.String(), guard)
 		}
 
-		// For scalar values, add a guard against assignments equal to the default value for that path
-		if assignmentType.IsScalar() && assignmentType.Default != nil {
+		// For scalar values, add a guard against assignments equal to what a new builder holds for
+		// that path: what its constructor sets there, or else the default of the type
+		initialValue := assignmentType.Default
+		if constant, initialised := generator.initialisedPaths[assignment.Path.String()]; initialised {
+			initialValue = constant
+		}
+		if assignmentType.IsScalar() && initialValue != nil {
 			guard := MappingGuard{
 				Path:  valuesRootPath.Append(assignment.Path),
 				Op:    ast.NotEqualOp,
-				Value: assignmentType.Default,
+				Value: initialValue,
 			}
 			guards.Set(guard.String(), guard)
 		}
